@@ -1,4 +1,8 @@
-"""C16 = operation timeouts (Establish: every operation carries the right configured value) +
+"""Checks with two parts (an Establish part and a Pool part).
+
+C10 = which stream a request is written to (Establish: endpoint / TLS / SNI / ALPN / protocol of
+every connection type) + routing inside the pool over origins that differ in one component.
+C16 = operation timeouts (Establish: every operation carries the right configured value) +
 pool timeout (Pool: PoolTimeout exactly at the deadline, only for a request without a
 connection; zero timeout succeeds when no waiting is needed)."""
 from . import check_establish, check_pool
